@@ -106,9 +106,36 @@ def stateSni (xs : List Ext) : Option Bytes :=
 
 def wireExt (p : ParsedCH) (t : Nat) : Option Bytes := (p.extList.find? (·.1 == t)).map (·.2)
 
+def isGreaseExt : Ext → Bool
+  | grease _ _ => true
+  | _ => false
+
+/-- "each extension type at most once, pre_shared_key last" judged on a spec **as given to
+ApplyPreset**: GREASE extensions are placeholders (at most two, the code gives them different code
+points), everything else has pairwise different non-GREASE types. -/
+def inputShapeOK (xs : List Ext) : Bool :=
+  let ng := xs.filter fun e => !isGreaseExt e
+  distinctB (ng.map typeId) && (ng.all fun e => !isGreaseU16 (typeId e)) &&
+  (xs.filter isGreaseExt).length ≤ 2 && pskLastB (xs.map typeId)
+
+/-- is the case inside the property's quantifier? Field values are judged on the reported state; the
+"each type once / PSK last" part is judged on the **input**: for parrots, fingerprinted, JSON and
+resumed hellos the input is a library spec (always inside), for generated specs it is the spec handed
+to ApplyPreset, and only for direct marshalling the state itself. A repeated type that the library
+*produces* from a good spec (GREASE collision) is therefore a violation, not an excuse. -/
+def gateOK (c : Case) (st : St) : Bool :=
+  if c.family == "ch_marshal" || c.family == "pad_direct" || c.family == "ch_bound" then specOK st.f st.xs
+  else
+    fieldsOK st.f && st.xs.all extOKb &&
+    match c.input.get "exts" with
+    | some s => match parseExts s with
+      | some xs => inputShapeOK xs
+      | none => false
+    | none => true
+
 /-- monitors of C02 on the implementation's bytes (only for specs inside the property's quantifier). -/
 def monitor (c : Case) (st : St) (raw : Bytes) : Option String :=
-  if !specOK st.f st.xs then none else
+  if !gateOK c st then none else
   match parseCH raw with
   | none => some "length-prefix-mismatch-or-trailing-bytes"
   | some p =>
@@ -144,7 +171,8 @@ def shapeTag (st : St) : String :=
   let quic := if st.f.sessionId.isEmpty then ",nosid" else ""
   let ech := if st.xs.any fun e => typeId e == 65037 then ",ech" else ""
   let wf := if specOK st.f st.xs then "" else ",beyond-limits"
-  s!"n={if st.xs.length ≤ 3 then toString st.xs.length else if st.xs.length ≤ 12 then "4-12" else "13+"},{sn}{psk}{tick}{quic}{ech}{wf}"
+  let g2 := if (st.xs.filter isGreaseExt).length = 2 then ",grease2" else ""
+  s!"n={if st.xs.length ≤ 3 then toString st.xs.length else if st.xs.length ≤ 12 then "4-12" else "13+"},{sn}{psk}{tick}{quic}{ech}{g2}{wf}"
 
 /-- shared skeleton: `extra` = additional monitors on the implementation's bytes and additional tag. -/
 def check (c : Case) (extra : St → Bytes → Option String) (xtag : St → Impl → String) : Verdict :=
@@ -178,6 +206,7 @@ def check (c : Case) (extra : St → Bytes → Option String) (xtag : St → Imp
 def ch (c : Case) : Verdict := check c (fun _ _ => none) (fun _ _ => "")
 
 def families : List (String × (Case → Verdict)) :=
-  [("ch_parrot", ch), ("ch_custom", ch), ("ch_marshal", ch), ("ch_fp", ch), ("ch_json", ch), ("ch_resume", ch)]
+  [("ch_parrot", ch), ("ch_custom", ch), ("ch_marshal", ch), ("ch_fp", ch), ("ch_json", ch), ("ch_resume", ch),
+   ("ch_bound", ch), ("ch_grease", ch)]
 
 end Drv.C02
